@@ -81,7 +81,7 @@ def run(ctx, selftest=False):
                 "built as real RVData sources (alternating km/s and m/s, shuffled inside a source) + seeded random cases to 4 surveys "
                 "x 30 epochs; distinct = distinct (sources, mode, key order); trivial = one survey")
     ctx.assumptions = ["TLC/SANY", "astropy Time/units", "identity of an observation is recovered from its value (rv=id, err=id/8)"]
-    ctx.model_check("MultiSurveyAlg", "MC_MultiSurveyAlg.cfg", coverage=True)
+    ctx.model_check("MultiSurveyAlg", "MC_MultiSurveyAlg.cfg" if quick else "MC_MultiSurveyAlg_thorough.cfg", coverage=True, heap="8g")
     # the named deviation, enabled: every behaviour is either right or exactly KF_IdsNotPermuted (classifier is sound)
     ctx.model_check("MultiSurveyAlg", "MC_MultiSurveyAlg_dev.cfg")
     r = ctx.model_check("MultiSurveyAlg", "MC_MultiSurveyAlg_export.cfg", workers=1)
